@@ -182,11 +182,56 @@ func (e *Env) RMapsAllocated() {
 		})
 	}
 	e.Run.Check("R-NOPANIC", "newMap allocates the six node/object/scope maps", "", cnt == 6, fmt.Sprintf("%d map literals", cnt))
-	// appendDecoration / appendNewLine nil-check the inner map
+	// appendDecoration / appendNewLine: the per-node inner map is allocated on first use — in the
+	// function itself or in a helper it calls: `if M[K] == nil { M[K] = map[string][]string{} }`
+	allocates := func(f *ast.FuncDecl) bool {
+		found := false
+		ast.Inspect(f.Body, func(n ast.Node) bool {
+			is, ok := n.(*ast.IfStmt)
+			if !ok || len(is.Body.List) != 1 {
+				return true
+			}
+			be, ok := is.Cond.(*ast.BinaryExpr)
+			if !ok || be.Op != token.EQL || !pkg.TypesInfo.Types[be.Y].IsNil() {
+				return true
+			}
+			if _, isIdx := be.X.(*ast.IndexExpr); !isIdx {
+				return true
+			}
+			as, ok := is.Body.List[0].(*ast.AssignStmt)
+			if !ok || len(as.Lhs) != 1 || len(as.Rhs) != 1 || c.ExprStr(as.Lhs[0]) != c.ExprStr(be.X) {
+				return true
+			}
+			if cl, ok := as.Rhs[0].(*ast.CompositeLit); ok {
+				if _, isMap := pkg.TypesInfo.TypeOf(cl).Underlying().(*types.Map); isMap {
+					found = true
+				}
+			}
+			return true
+		})
+		return found
+	}
 	for _, name := range []string{"appendDecoration", "appendNewLine"} {
 		f := load.FuncDecl(pkg, "", name)
-		ok := f != nil && len(f.Body.List) > 0 && stmtNorm(c, f.Body.List[0]) == "if m[n] == nil { m[n] = map[string][]string{}; }"
-		e.Run.Check("R-NOPANIC", name+" allocates the per-node map on first use", "", ok, "first statement must nil-check and allocate m[n]")
+		ok := false
+		if f != nil && f.Body != nil {
+			ok = allocates(f)
+			if !ok {
+				ast.Inspect(f.Body, func(n ast.Node) bool {
+					if call, isCall := n.(*ast.CallExpr); isCall {
+						if fn := c.Callee(call); fn != nil && fn.Pkg() == pkg.Types {
+							for _, h := range load.AllFuncDecls(pkg) {
+								if pkg.TypesInfo.Defs[h.Name] == types.Object(fn) && h.Body != nil && allocates(h) {
+									ok = true
+								}
+							}
+						}
+					}
+					return true
+				})
+			}
+		}
+		e.Run.Check("R-NOPANIC", name+" allocates the per-node map on first use", "", ok, "a store into the nil inner map of a node that has no decorations yet panics: expected `if m[n] == nil { m[n] = map[string][]string{} }` here or in a helper it calls")
 	}
 }
 
